@@ -35,6 +35,11 @@ func nopanicConfigs(r *rng, n int) []proxyCfg {
 		out = append(out, proxyCfg{ReverseProxy: true, RealClientIPHeader: h, TrustedIPs: []string{"10.0.0.0/8", "::ffff:10.0.0.0/104", "2001:db8::/32"}, InjectRequest: defaultInject(),
 			CookieDomains: []string{".example.com"}, Whitelist: []string{".example.com"}})
 	}
+	// reverse-proxy mode WITHOUT trusted networks (the unix-socket peer "@" and parsable client-IP headers still reach the trusted-IP check)
+	for _, h := range []string{"X-Real-IP", "X-Forwarded-For"} {
+		out = append(out, proxyCfg{ReverseProxy: true, RealClientIPHeader: h, InjectRequest: defaultInject(), SkipAuthRoutes: []string{"^/skip/"}})
+	}
+	out = append(out, proxyCfg{InjectRequest: defaultInject()}) // no reverse proxy, no trusted networks
 	// force-https redirect in front of everything, with and without trusted forwarding headers
 	for _, rp := range []bool{false, true} {
 		out = append(out, proxyCfg{ForceHTTPS: true, ReverseProxy: rp, InjectRequest: defaultInject(), Htpasswd: map[string]string{"bob": "pw"}, SkipAuthRoutes: []string{"^/skip/"}})
@@ -96,12 +101,12 @@ var weirdTargets = []string{"/", "//", "/%2e%2e/x", "/a/../b", "/oauth2", "/oaut
 	"/oauth2/start?rd=%2F%2Fevil", "/oauth2/start?rd=" + strings.Repeat("a", 9000), "/oauth2/sign_in?rd=/x", "/oauth2/sign_out?rd=%5Cevil", "/oauth2/userinfo", "/oauth2/static/../../etc/passwd",
 	"/oauth2/static/", "/oauth2/auth?allowed_email_domains=example.com", "/oauth2/auth?allowed_email_domains=*.example.com,example.org&allowed_groups=dev&allowed_emails=a@b",
 	"/oauth2/auth?allowed_emails=", "/oauth2/auth?allowed_email_domains=,", "/oauth2/auth?allowed_groups=%ff", "/ping", "/ready", "/robots.txt", "/x?a=1;b=2", "/x?%zz", "/rw/a;b?keep=1", "/rw/%25zz", "/skip/x", "/" + strings.Repeat("a/", 2000), "/x#frag", "/\x7f"}
-var weirdFwd = []string{"", "1.2.3.4", "10.1.2.3", "10.1.2.3, 8.8.8.8", ",", " , ", "[::1", "[::1]:80", "::ffff:10.1.2.3", "1.2.3.4:99999", "a,b", "10.1.2.3:", strings.Repeat("1", 5000), "2001:db8::1", "::"}
+var weirdFwd = []string{"", ", 10.0.0.1", " ,", "[", "[]", "[::1]", "[::1", "]", "1.2.3.4", "10.1.2.3", "10.1.2.3, 8.8.8.8", ",", " , ", "[::1", "[::1]:80", "::ffff:10.1.2.3", "1.2.3.4:99999", "a,b", "10.1.2.3:", strings.Repeat("1", 5000), "2001:db8::1", "::"}
 
 func init() {
 	registerSuite("nopanic", func(c *suiteCtx) {
 		u := defaultUser()
-		cfgs := nopanicConfigs(c.rng.fork(), 34+10*c.scale)
+		cfgs := nopanicConfigs(c.rng.fork(), 37+10*c.scale)
 		perCfg := 700
 		if c.scale > 1 {
 			perCfg = 2500
@@ -147,6 +152,8 @@ func init() {
 				}
 			}
 			seeds := []reqSpec{
+				{Target: "/app/x", RemoteAddr: "@", Header: http.Header{"X-Real-Ip": {"10.1.2.3"}, "X-Forwarded-For": {"10.1.2.3"}}}, {Target: "/oauth2/auth", RemoteAddr: "@", Header: http.Header{"X-Real-Ip": {"::1"}}},
+				{Target: "/app/x", Header: http.Header{"X-Forwarded-For": {", 10.0.0.1"}, "X-Real-Ip": {","}}}, {Target: "/oauth2/start", Header: http.Header{"X-Forwarded-For": {"[::1]"}, "X-Real-Ip": {"["}}},
 				{Target: "/oauth2/auth?allowed_email_domains=example.com", Header: http.Header{"Authorization": {basic}}}, {Target: "/oauth2/auth?allowed_emails=bob&allowed_groups=dev", Header: http.Header{"Authorization": {basic}}},
 				{Target: "/oauth2/auth?allowed_email_domains=example.com,*.example.org", Cookie: formCookie}, {Target: "/app/x", Cookie: formCookie}, {Target: "/oauth2/userinfo", Cookie: formCookie},
 				{Target: "/oauth2/auth?allowed_email_domains=example.com", Cookie: sessionCookie}, {Target: "/oauth2/auth?allowed_email_domains=example.com", Header: http.Header{"Authorization": {bearer}}},
